@@ -500,7 +500,7 @@ FLAG_VIAS = ["dataset", "linear", "branin", "dec-dataset", "dec-linear", "dec-br
 FLAG_MODES = ["false_kw", "true_kw", "default", "false_pos", "true_pos"]
 
 
-def _flag_history_case(rng, via, modes, single=None, noise_var=None, bundled=None):
+def _flag_history_case(rng, via, modes, single=None, noise_var=None, bundled=None, forms=None):
     dec = via.startswith("dec-")
     base = via[4:] if dec else via
     single = (rng.random() < 0.3) if single is None else single
@@ -542,7 +542,9 @@ def _flag_history_case(rng, via, modes, single=None, noise_var=None, bundled=Non
             ix = [rng.randrange(m) for _ in range(k)]
         Z = [[rng.choice([-1, 1]) * rng.randint(1, 8) / 4.0 for _ in range(m)] for _ in range(k)]  # no zero entry
         calls.append({"mode": mode, "xs": [pt() for _ in range(k)], "ix": ix, "ix_pos": rng.random() < 0.5,
-                      "Z": Z, "real_rng": rng.random() < 0.15, "seed": rng.randrange(2 ** 31)})
+                      "Z": Z, "real_rng": rng.random() < 0.15, "seed": rng.randrange(2 ** 31),
+                      # how the caller holds the flag: the literal, or a numpy bool (`noise_var > 0`, a mask entry)
+                      "form": (forms[len(calls) % len(forms)] if forms else rng.choice(["literal", "literal", "npbool"]))})
     case.update({"calls": calls, "m": m, "d": d})
     return case
 
@@ -593,9 +595,14 @@ def gen(ctx):
     for i, via in enumerate(FLAG_VIAS):
         for j, modes in enumerate([["false_kw", "default", "true_kw", "default", "false_kw"],
                                    ["default", "false_pos", "default", "default"]]):
-            c = _flag_history_case(fixed, via, modes, single=(j == 1 and i % 2 == 0))
+            c = _flag_history_case(fixed, via, modes, single=(j == 1 and i % 2 == 0), forms=["literal"])
             if (2 * i + j) % ctx.nworkers == ctx.worker:
                 yield c
+        # the same flag values held as numpy bools (what `noise_var > 0` or a boolean-mask entry gives the caller)
+        c = _flag_history_case(fixed, via, ["false_kw", "true_kw", "false_kw", "default", "false_kw"],
+                               single=(i % 2 == 1), forms=["npbool", "literal", "npbool", "literal", "npbool"])
+        if i % ctx.nworkers == ctx.worker:
+            yield c
     # (hand-picked regression cases live in corpus/C20/ and run first)
     kinds = [("lookup", 45), ("noise-util", 12), ("noise-prob", 12), ("continuous", 9), ("synth-ds", 9),
              ("roundtrip", 13), ("history", 14), ("neardup", 14), ("flag-hist", 12)]
@@ -1436,17 +1443,20 @@ def _run_flag_history(ctx, case):
         M = np.asarray(fresh_inner.noise_cholesky, dtype=float).T   # rows are multiplied by Lᵀ (diagonal here)
         Z = np.array(call["Z"], dtype=float)
         args, kw = [x], {}
+        flag = np.bool_(want_noisy) if call.get("form", "literal") == "npbool" else want_noisy
+        if mode != "default":
+            ctx.count("flaghist_form_" + call.get("form", "literal"))
         if dec:
             if call["ix_pos"]:
                 args.append(ix)
             else:
                 kw["evaluation_index"] = ix
             if mode != "default":
-                kw["noisy"] = want_noisy
+                kw["noisy"] = flag
         elif mode.endswith("_pos"):
-            args.append(want_noisy)
+            args.append(flag)
         elif mode != "default":
-            kw["noisy"] = want_noisy
+            kw["noisy"] = flag
         ctx.count("flaghist_mode_" + mode)
         hx = _hash(x)
         state = np.random.get_state()
